@@ -10,7 +10,7 @@
     tagsIn            tax.TagsIn / supportedTags       regime ∪ active addons, per document type
                                                        (applied by bill.Invoice only: `validateDocTags`)
     pricesInclude     (*bill.Tax).ValidateWithContext  `prices_include` ∈ the document regime's categories
-    validateTotal     tax.Total / CategoryTotal / RateTotal .Validate   `ext` of every rate of a stored summary
+    validateTotal     tax.Total / CategoryTotal / RateTotal .Validate   code and rates required; country and `ext` of every rate of a stored summary
     addonRegistered   tax.AddonRegistered
     currencyKnown     currency.Code validation         code ∈ definitions
     countryKnown      l10n code validation             code ∈ published code list
@@ -183,15 +183,18 @@ def inCategoryRates (r : Option Regime) (cat key : String) : Bool :=
 def comboRegime (d : Defs) (docRegime : Option Regime) (c : Combo) : Option Regime :=
   if c.country == "" then docRegime else d.regimeFor c.country
 
-/-- one pair of `Extensions.Validate` -/
+/-- one pair of `Extensions.Validate`: the key is defined, the value is present
+    (`validation.Validate(ev, validation.Required)`; that it is a well-formed `cbc.Code` is C11's
+    business: `Leaves.extValueValidate`), listed if there is a list, matched if there is a pattern -/
 def validateExtPair (d : Defs) (pm : PatternMatch) (kv : String × String) : Bool :=
   match d.extDef kv.1 with
   | none => false
   | some kd =>
+    kv.2 != "" &&
     (kd.codes.isEmpty || kd.codes.contains kv.2) &&
     (kd.pattern == "" || pm kd.pattern kv.2)
 
-/-- `Extensions.Validate` (key syntax is C11's business) -/
+/-- `Extensions.Validate` (key and value syntax are C11's business) -/
 def validateExt (d : Defs) (pm : PatternMatch) (ext : List (String × String)) : Bool :=
   ext.all (validateExtPair d pm)
 
@@ -247,12 +250,15 @@ structure CategoryTotal where
   rates : List RateTotal
 deriving DecidableEq, Repr, Inhabited
 
-/-- `(*RateTotal).Validate`: `validation.Field(&rt.Ext)` → `Extensions.Validate` -/
-def validateRateTotal (d : Defs) (pm : PatternMatch) (rt : RateTotal) : Bool := validateExt d pm rt.ext
+/-- `(*RateTotal).Validate`: `Field(&rt.Key)` (key syntax: C11's business), `Field(&rt.Country)`
+    (a known country code, or none), `Field(&rt.Ext)` → `Extensions.Validate` -/
+def validateRateTotal (d : Defs) (pm : PatternMatch) (rt : RateTotal) : Bool :=
+  (rt.country == "" || d.countries.contains rt.country) && validateExt d pm rt.ext
 
-/-- `(*CategoryTotal).Validate`: every rate -/
+/-- `(*CategoryTotal).Validate`: `Field(&ct.Code, Required)` (code syntax: C11's business),
+    `Field(&ct.Rates, Required)`: at least one rate, and every rate -/
 def validateCategoryTotal (d : Defs) (pm : PatternMatch) (ct : CategoryTotal) : Bool :=
-  ct.rates.all (validateRateTotal d pm)
+  ct.code != "" && !ct.rates.isEmpty && ct.rates.all (validateRateTotal d pm)
 
 /-- `(*Total).Validate`: every category (a nil total, i.e. no summary, is valid) -/
 def validateTotal (d : Defs) (pm : PatternMatch) (cats : List CategoryTotal) : Bool :=
